@@ -96,7 +96,7 @@ def cases(tier, seed):
 
 
 def run_bounded(chk):
-    cs = cases(chk.tier, chk.seed)
+    cs = cases(chk.bounded_tier, chk.seed)
     fkey = "coxeter.shapes.convex_polyhedron::ConvexPolyhedron.__init__ (+_consume_hull,_combine_simplices,_sort_simplices,sort_faces)"
     chk.functions.setdefault(fkey, {"sha": "-", "paths": 0, "lines": 0, "bounded_only": True})
     n_bad = 0
@@ -108,10 +108,10 @@ def run_bounded(chk):
         distinct.add(tuple(sorted(tuple(round(c, 9) for c in p) for p in pts)))
         idx = list(range(len(pts)))
         orders = [idx]
-        if len(pts) <= 5 and chk.tier == "thorough":
+        if len(pts) <= 5 and chk.bounded_tier == "thorough":
             orders = [list(p) for p in itertools.permutations(idx)][:120]
         else:
-            for _ in range(2 if chk.tier == "quick" else 8):
+            for _ in range(2 if chk.bounded_tier == "quick" else 8):
                 q = idx[:]
                 rnd.shuffle(q)
                 orders.append(q)
